@@ -57,6 +57,19 @@ pub fn simplify_case(cx: &mut Ctx, n: u64, case: &Value) {
     coords_eq(cx, "rdp_coords_nonpositive_eps", "simplify(0)", guard(|| ls.simplify(0.0).0), Ok(all.clone()), &[all.clone()]);
     coords_eq(cx, "vw_coords_nonpositive_eps", "simplify_vw(0)", guard(|| ls.simplify_vw(0.0).0), Ok(all.clone()), &[all.clone()]);
     coords_eq(cx, "vw_coords_nonpositive_eps", "simplify_vw(-1)", guard(|| ls.simplify_vw(-1.0).0), Ok(all.clone()), &[all.clone()]);
+    // f32 scalar type: lattice coordinates and the tolerances k / 4 are exact in f32; the admissible sets already allow either
+    // decision where a distance or area equals eps exactly
+    {
+        let lf: LineString<f32> = LineString::new(cs.iter().map(|c| Coord { x: c.x as f32, y: c.y as f32 }).collect());
+        let ef = eps as f32;
+        member(cx, "rdp_idx_f32", "LineString<f32>::simplify_idx(eps)", guard(|| lf.simplify_idx(ef)), &rdp);
+        member(cx, "vw_idx_f32", "LineString<f32>::simplify_vw_idx(eps)", guard(|| lf.simplify_vw_idx(ef)), &vw);
+        let back = |l: LineString<f32>| -> Vec<Coord<f64>> { l.0.iter().map(|c| Coord { x: c.x as f64, y: c.y as f64 }).collect() };
+        coords_eq(cx, "rdp_coords_f32", "LineString<f32>::simplify(eps) vs simplify_idx(eps)", guard(|| back(lf.simplify(ef))), guard(|| lf.simplify_idx(ef)), &rdp);
+        coords_eq(cx, "vw_coords_f32", "LineString<f32>::simplify_vw(eps) vs simplify_vw_idx(eps)", guard(|| back(lf.simplify_vw(ef))), guard(|| lf.simplify_vw_idx(ef)), &vw);
+        coords_eq(cx, "rdp_coords_f32", "LineString<f32>::simplify(0)", guard(|| back(lf.simplify(0.0))), Ok(all.clone()), &[all.clone()]);
+        coords_eq(cx, "vw_coords_f32", "LineString<f32>::simplify_vw(-1)", guard(|| back(lf.simplify_vw(-1.0))), Ok(all.clone()), &[all.clone()]);
+    }
     // MultiLineString: member-wise
     let mls = MultiLineString::new(vec![ls.clone(), ls.clone()]);
     coords_eq(cx, "rdp_multi", "MultiLineString::simplify", guard(|| mls.simplify(eps).0[1].0.clone()), guard(|| ls.simplify_idx(eps)), &rdp);
